@@ -30,12 +30,15 @@ def run(rep):
     quick = rep.tier == "quick"
     rng = random.Random(rep.seed)
     rep.rule = ("S->I: every scenario (statement shapes over <= 4 references in 1-2 files x schedules "
-                "[reference -> 0..2 postponements]) enumerated by TLC, loaded with real textX; I->S: the provider "
+                "[reference -> 0..2 postponements]; lists in which several references name the same target: every "
+                "partition of <= 4 references; object structures: one object with two reference lists [and a single "
+                "reference], a parent and its first child starting at the same input position with same-named lists) "
+                "enumerated by TLC, loaded with real textX on one metamodel per worker process (earlier models dropped); I->S: the provider "
                 "calls of those loads plus seeded-random scenarios (<= 3 files, <= 8 references, <= 3 postponements, "
                 "dependencies) validated by TLC. Non-trivial: at least one postponement and a list of >= 2 "
                 "references; distinct by scenario content.")
     rep.assumptions = [
-        "references are told apart by unique target names; the scheduled provider is the inner provider of "
+        "references are told apart by their position in the text; the scheduled provider is the inner provider of "
         "textx.scoping.providers.ImportURI registered under '*.*' (its calls on behalf of imported models after a "
         "None answer are not counted as attempts)",
         "every rendered file holds at least one definition (a file without elements is returned by textX as a "
